@@ -168,6 +168,69 @@ def history_search(ctx, docs):
                     addresses(ctx, again, [x] + ([again] if again is not x else []), order + ": detached a second time", src)
 
 
+def boundary_search(ctx):
+    """a tag node behind a long unbroken run of siblings that are not tag nodes: the path must be read and must address
+    the node (no recursion per skipped sibling)"""
+    from impl import new_comment_node
+    runs = [("<!--c-->" * 2000, "<!--c-->" * 300), ("<?p q?>" * 2000, "<?p q?>" * 300), ("<!--c--><?p q?>" * 1000, "<?p q?><!--c-->" * 150),
+            ("<!--c-->" * 1500 + "t" + "<?p q?>" * 1500, "<!--c-->" * 300)]
+    for run_, inner in runs:
+        src = "<r><first/>" + run_ + "<a><b/>" + inner + "<c/></a>" + run_ + "<z/></r>"
+        d = Document(src)
+        with altered_default_filters():
+            tags = [n for n in d.root.iterate_descendants() if isinstance(n, TagNode)]
+        for n in tags:
+            what = {"doc": src[:40] + "...(%d characters)" % len(src), "node": n.local_name}
+            try:
+                lp = n.location_path
+                res = list(d.root.xpath(lp)) + list(tags[-1].xpath(lp))
+            except Exception as ex:     # noqa: BLE001
+                ctx.fail("location_path cannot be read or evaluated behind a long run of non-tag siblings",
+                         dict(what, error=type(ex).__name__))
+                continue
+            ctx.count(1, "boundary")
+            if len(res) != 2 or res[0] is not n or res[1] is not n:
+                ctx.fail("location_path does not select exactly its node", dict(what, path=lp))
+    # the same built through the API: comments appended one by one, then an element
+    r = Document("<r/>").root
+    with altered_default_filters():
+        for _ in range(2000):              # one call per node: a single call with many arguments recurses per argument
+            r.append_children(new_comment_node("c"))
+        x = impl.new_tag_node("x")
+        r.append_children(x)
+    try:
+        lp = x.location_path
+        ok = [n is x for n in r.xpath(lp)] == [True]
+    except Exception as ex:     # noqa: BLE001
+        ctx.fail("location_path cannot be read or evaluated behind a long run of non-tag siblings",
+                 {"doc": "<r/> + 2000 appended comments + <x/>", "error": type(ex).__name__})
+        ok = True
+    ctx.count(1, "boundary")
+    if not ok:
+        ctx.fail("location_path does not select exactly its node", {"doc": "<r/> + 2000 appended comments + <x/>", "path": lp})
+
+
+def root_replaced_search(ctx, docs):
+    """Document.root is assigned another node: the old root is a tree of its own from then on; nodes kept from it are
+    addressed within it, the new root within the document -- from every context, before and after"""
+    for src in docs:
+        for evaluate_first in (True, False):
+            d = Document(src)
+            old = d.root
+            with altered_default_filters():
+                kept = [n for n in old.iterate_descendants() if isinstance(n, TagNode)][:3]
+            if evaluate_first:
+                addresses(ctx, old, kept + [old], "before the root is replaced", src)
+            new = Document("<n><m/><m><k/></m></n>").root.clone(deep=True)
+            d.root = new
+            addresses(ctx, old, kept + [old], "old tree after Document.root was assigned another node", src)
+            addresses(ctx, d.root, [d.root, d.root[0]], "the new root after Document.root was assigned", src)
+            # and back again
+            d.root = old
+            addresses(ctx, old, kept + [old], "the old root assigned back", src)
+            addresses(ctx, new, [new, new[0]], "the replaced root as a tree of its own", src)
+
+
 def run(ctx, args):
     rng = ctx.rng
     quick = ctx.tier == "quick"
@@ -264,6 +327,8 @@ def run(ctx, args):
                     meta.append(("eval", dict(small, ctx=list(cp)), [0, 1, len(pos)] + list(pos)))
     with no_gc():
         history_search(ctx, HISTORY_DOCS + [c06.FIXED_DOCS[0]] + [c06.gen_doc(rng) for _ in range(3 if quick else 30)])
+        root_replaced_search(ctx, HISTORY_DOCS + [c06.FIXED_DOCS[0]])
+        boundary_search(ctx)
     res = xq.coq_eval_retry(ctx, "c14_cases", xq.REQ + "\n".join(preamble) + "\n", terms, chunk=250)
     for (kind, small, want), got in zip(meta, res):
         ctx.count(1, "model:" + kind)
